@@ -128,7 +128,7 @@ def launch(vh, driver, np, seed, tier, lo, hi, wdir, tag, env_extra, timeout, ex
     return res
 
 
-def run_cases(vh, driver, np, seed, tier, ncases, wdir, tag, env_extra, timeout, on_launch=None, extra_args=None):
+def run_cases(vh, driver, np, seed, tier, ncases, wdir, tag, env_extra, timeout, on_launch=None, extra_args=None, max_incidents=3):
     """Run cases [0,ncases) under np ranks, resuming after a hang/crash. Returns (rank0_cases, incidents, launches)."""
     cases, incidents, launches = [], [], []
     cur, attempt = 0, 0
@@ -163,4 +163,8 @@ def run_cases(vh, driver, np, seed, tier, ncases, wdir, tag, env_extra, timeout,
         else:
             incidents.append(dict(kind="crash", np=np, case=k, rc=res["rc"], stderr=res["stderr"]))
         cur = k + 1
+        # a tree that hangs or crashes in case after case is not explored to the end: three incidents decide the launch
+        if sum(1 for i in incidents if i["kind"] in ("hang", "crash", "slow-twice")) >= max_incidents:
+            incidents.append(dict(kind="stopped", np=np, case=cur, note="stopped after %d incidents; cases from %d on were not run" % (max_incidents, cur)))
+            break
     return cases, incidents, launches
